@@ -803,10 +803,74 @@ def _left_behind_kinds(ex, info):
     return kinds
 
 
+def _step_moves(ex, phs, t):
+    """component -> places it reported during the allocation of step t (the library's "set None, then set" pattern and repeated values collapsed)"""
+    su = phs["updated"][1]
+    cur = {cn: v[1] for cn, v in su["components"].items()}
+    seqs = {cn: [cur[cn]] for cn in cur}
+    for ev in ex.placements.get((t, "alloc"), []):
+        if ev[0] == "comp_set":
+            seqs[ev[1]].append(ev[2])
+    out = {}
+    for cn, seq in seqs.items():
+        vals = [seq[0]]
+        for i in range(1, len(seq)):
+            v = seq[i]
+            if v is None and i + 1 < len(seq):
+                continue
+            if v != vals[-1]:
+                vals.append(v)
+        out[cn] = vals
+    return out
+
+
+C13_REFINE = True  # False: count what the narrower keys would re-label (coverage.extra), but keep the shape-only keys
+
+
+def _line(info, cn):
+    """cn with all its ancestors and descendants"""
+    seen, todo = [cn], [cn]
+    while todo:
+        c = todo.pop()
+        for n in info.comp_parents.get(c, []):
+            if n not in seen:
+                seen.append(n)
+                todo.append(n)
+    todo = [cn]
+    while todo:
+        c = todo.pop()
+        for n in info.comp_children.get(c, []):
+            if n not in seen:
+                seen.append(n)
+                todo.append(n)
+    return seen
+
+
+def _whole_run_observed(ex):
+    o = ex.opts
+    return not any(o.get(k) for k in ("resume_from", "presim", "presim_back", "alloc_fault", "build_from", "backward")) and ex.log_start == 0 and bool(ex.trace)
+
+
 def mon_c13(ex, info, col):
     out = []
     bs = ex.by_step()
     lb = _left_behind_kinds(ex, info)
+    twice = {}  # multi-task component -> first observed step at which it was placed twice with at least two of its tasks READY
+
+    def narrow(sig_shape, known_history, what):
+        """shape tag of a signature: the recorded findings keep the bare shape, a violation of the same clause with another history gets a suffix"""
+        if known_history:
+            return sig_shape
+        col.extra["c13.other-history:%s:%s" % (sig_shape, what)] += 1
+        return "%s:%s" % (sig_shape, what) if C13_REFINE else sig_shape
+
+    for t in sorted(bs):
+        if "updated" in bs[t]:
+            su_ = bs[t]["updated"][1]
+            for cn, vals in _step_moves(ex, bs[t], t).items():
+                if len(vals) > 2 and _shape(info, cn) == "multi-task" and sum(1 for tn in info.comp_tasks[cn] if su_["tasks"][tn][0] == S.T_READY) >= 2:
+                    twice.setdefault(cn, t)
+    whole = _whole_run_observed(ex)
     for t in sorted(bs):
         phs = bs[t]
         for ph, (working, sn) in phs.items():
@@ -874,29 +938,29 @@ def mon_c13(ex, info, col):
                         wpn = comps[cn][1]
                         for f in fs:
                             if info.fac_wp[f] != wpn:
-                                out.append(V("C13", "C13:task-works-with-facility-of-another-workplace[%s]" % _shape(info, cn), ex,
+                                shp_ = _shape(info, cn)
+                                if shp_ == "multi-task":
+                                    shp_ = narrow(shp_, (cn in twice and twice[cn] <= t) or not whole, "never-placed-twice-in-one-step-before")
+                                out.append(V("C13", "C13:task-works-with-facility-of-another-workplace[%s]" % shp_, ex,
                                              {"t": t, "phase": ph, "task": tn, "facility": f, "facility_workplace": info.fac_wp[f], "component": cn, "component_workplace": wpn}))
         # placement events of the allocation part of this step
         if "updated" in phs:
             su = phs["updated"][1]
-            cur = {cn: v[1] for cn, v in su["components"].items()}
-            seqs = {cn: [cur[cn]] for cn in cur}
-            for ev in ex.placements.get((t, "alloc"), []):
-                if ev[0] == "comp_set":
-                    seqs[ev[1]].append(ev[2])
-            for cn, seq in seqs.items():
-                # collapse the library's "set None, then set" pattern and repeated values
-                vals = [seq[0]]
-                for i in range(1, len(seq)):
-                    v = seq[i]
-                    if v is None and i + 1 < len(seq):
-                        continue
-                    if v != vals[-1]:
-                        vals.append(v)
+            for cn, vals in _step_moves(ex, phs, t).items():
                 moves = len(vals) - 1
                 col.checks["c13.moves"] += 1
+                shp = shp2 = _shape(info, cn)
+                moved_at_work = any(a != b for a, b in zip(vals, vals[1:])) and any(su["tasks"][tn][0] == S.T_WORKING for tn in info.comp_tasks[cn])
+                if shp == "multi-task" and (moves > 1 or moved_at_work):
+                    n_ready = sum(1 for tn in info.comp_tasks[cn] if su["tasks"][tn][0] == S.T_READY)
+                    shp2 = narrow(shp, n_ready >= 2, "fewer-than-two-of-its-tasks-READY")
+                elif shp == "nested" and (moves > 1 or moved_at_work):
+                    # the recorded finding: two components of one assembly line have tasks that are READY / WORKING in the same step
+                    active = [c_ for c_ in _line(info, cn) if any(su["tasks"][tn][0] in (S.T_READY, S.T_WORKING) for tn in info.comp_tasks.get(c_, []))]
+                    n_ready = sum(1 for tn in info.comp_tasks[cn] if su["tasks"][tn][0] == S.T_READY)  # (... or the part itself carries two READY tasks: the multi-task finding)
+                    shp2 = narrow(shp, len(active) >= 2 or n_ready >= 2, "no-second-active-component-in-its-assembly")
                 if moves > 1:
-                    out.append(V("C13", "C13:component-moved-more-than-once-in-one-step[%s]" % _shape(info, cn), ex, {"t": t, "component": cn, "places": vals}))
+                    out.append(V("C13", "C13:component-moved-more-than-once-in-one-step[%s]" % shp2, ex, {"t": t, "component": cn, "places": vals}))
                 for a, b in zip(vals, vals[1:]):
                     if b is not None:
                         col.nontrivial.add(hash((info.key, "move", cn, a, b)))
@@ -904,7 +968,7 @@ def mon_c13(ex, info, col):
                         if ins and a is not None and a not in ins:
                             out.append(V("C13", "C13:entered-workplace-not-from-its-input-workplaces[%s]" % _shape(info, cn), ex, {"t": t, "component": cn, "from": a, "to": b, "inputs": ins}))
                     if a != b and any(su["tasks"][tn][0] == S.T_WORKING for tn in info.comp_tasks[cn]):
-                        out.append(V("C13", "C13:component-moved-while-a-task-of-it-is-WORKING[%s]" % _shape(info, cn), ex, {"t": t, "component": cn, "from": a, "to": b}))
+                        out.append(V("C13", "C13:component-moved-while-a-task-of-it-is-WORKING[%s]" % shp2, ex, {"t": t, "component": cn, "from": a, "to": b}))
     # logs
     m = ex.m
     for cn in info.comps:
@@ -934,7 +998,10 @@ def mon_c13(ex, info, col):
             if fs and k < len(crec):
                 for f in fs:
                     if info.fac_wp[f] != crec[k]:
-                        out.append(V("C13", "C13:logged-facility-of-another-workplace[%s]" % _shape(info, info.task_comp[tn]), ex, {"k": k, "task": tn, "facility": f, "component_workplace": crec[k]}))
+                        shp_ = _shape(info, info.task_comp[tn])
+                        if shp_ == "multi-task":
+                            shp_ = narrow(shp_, info.task_comp[tn] in twice or not whole, "never-placed-twice-in-one-step-before")
+                        out.append(V("C13", "C13:logged-facility-of-another-workplace[%s]" % shp_, ex, {"k": k, "task": tn, "facility": f, "component_workplace": crec[k]}))
     return out
 
 
